@@ -106,6 +106,8 @@ func runC01(p *core.Program, r *core.Report) {
 	c01Helpers(p, r)
 	c01Counter(p, r)
 	c01Chokepoint(p, r, "C01.chokepoint")
+	r.Rule("C01.verbatim", "a reading method hands on the bytes it read: no decoded text is passed through a text-transforming function (ToValidUTF8, TrimSpace, case mapping, Replace)", 20)
+	verbatimRule(p, r, "C01.verbatim", []string{"io"})
 	r.Rule("C01.fresh", "a byte string handed out by a reading method is not a slice of scratch storage kept in the stream object (the next read would rewrite a value the caller still holds)", 3)
 	c01Fresh(p, r)
 }
